@@ -428,6 +428,37 @@ Section Inside.
     destruct (check_completion (with_cstate CArgs (replace_top f1 (with_brackets b (with_expected None stB)))) true); reflexivity.
   Qed.
 
+  (* one string, number or tag that the current command (of any kind) does not take *)
+  Lemma scalar_refused : forall st f rest t ty,
+    cur_is st f rest ->
+    (((t_kind t = TString \/ t_kind t = TMultiline) /\ ty = TyString /\ utf8_valid (t_val t) = true) \/
+     (t_kind t = TNumber /\ ty = TyNumber) \/ (t_kind t = TTag /\ ty = TyTag)) ->
+    match check_next_arg f ty (VStr (t_val t)) true true (p_loaded st) with
+    | CnaFalse => stops (process T st t) EUnexpectedToken
+    | CnaErr e => stops (process T st t) e
+    | _ => True
+    end.
+  Proof.
+    intros st f rest t ty [Es Hc He Hfi] Hk.
+    assert (Hcmd : m_command T st t =
+                   match check_next_arg f ty (VStr (t_val t)) true true (p_loaded st) with
+                   | CnaOk f1 _ => check_completion (replace_top f1 st) false
+                   | CnaFalse => MFalse st
+                   | CnaErr e0 => MErr e0
+                   | CnaCrash => MCrash
+                   end).
+    { unfold m_command. rewrite Hc. unfold m_arguments, m_argument. rewrite Es.
+      destruct Hk as [([Ek|Ek] & -> & Hu)|[(Ek & ->)|(Ek & ->)]]; rewrite Ek; try rewrite Hu; cbn [negb]; unfold lift_cna;
+        destruct (check_next_arg f _ (VStr (t_val t)) true true (p_loaded st)) as [f1 slot| | |]; try reflexivity;
+        destruct (check_completion (replace_top f1 st) false); reflexivity. }
+    assert (Hproc : process T st t = m_command T st t).
+    { unfold process. rewrite He. destruct Hk as [([Ek|Ek] & _)|[(Ek & _)|(Ek & _)]]; rewrite Ek; reflexivity. }
+    rewrite Hproc, Hcmd.
+    destruct (check_next_arg f ty (VStr (t_val t)) true true (p_loaded st)); try exact I.
+    - right. split; [eexists; reflexivity|reflexivity].
+    - left. reflexivity.
+  Qed.
+
   (* an argument list the table interpreter refuses: the machine stops at a token of one of the arguments *)
   Theorem args_stop : forall args st f rest e,
     at_args st f rest -> Forall arg_ok args -> feed f args (p_loaded st) = FStop e ->
@@ -1072,6 +1103,63 @@ Section Texts.
     apply (reject_after_prefix T text (pre ++ [tn; tl; lp]) t rest stP EExpected Hl').
     - rewrite map_app, steps_app, S1. cbn [map steps]. rewrite Etn, P1, Etl, P2, process_strip, P3. reflexivity.
     - apply (expected_mismatch T stP t [TIdentifier]); [reflexivity|exact Hbad|exact Hnc].
+  Qed.
+
+  (* ---- the arguments of a test: a string, number or tag that the test does not take at that point (an unknown
+     tag, a tag whose extension is not loaded, a value of the wrong type), while the test still needs arguments *)
+  Theorem test_argument_rejected : forall text pre tn tl a0toks t rest L prev k d a dl args0 fN ty,
+    wf_prefix T (map strip_pos pre) L prev k ->
+    fst (lex text) = pre ++ tn :: tl :: a0toks ++ t :: rest ->
+    t_kind tn = TIdentifier -> get_command_instance T L (t_val tn) = inl d ->
+    d_type d = CControl -> d_accept_children d = true -> d_args d = [a] -> is_t1 a = true ->
+    t_kind tl = TIdentifier -> get_command_instance T L (t_val tl) = inl dl -> d_type dl = CTest ->
+    d_expected_first dl = None -> iscomplete (new_frame dl (at_of a)) None = false ->
+    Forall arg_ok args0 -> map strip_pos a0toks = flat_map arg_toks args0 ->
+    feed (new_frame dl (at_of a)) args0 L = FOk fN -> iscomplete fN None = false ->
+    (((t_kind t = TString \/ t_kind t = TMultiline) /\ ty = TyString /\ utf8_valid (t_val t) = true) \/
+     (t_kind t = TNumber /\ ty = TyNumber) \/ (t_kind t = TTag /\ ty = TyTag)) ->
+    match check_next_arg fN ty (VStr (t_val t)) true true L with
+    | CnaFalse => parse T text = Reject EUnexpectedToken (t_pos t) (length (t_val t))
+    | CnaErr e => parse T text = Reject e (t_pos t) (length (t_val t))
+    | _ => True
+    end.
+  Proof.
+    intros text pre tn tl a0toks t rest L prev k d a dl args0 fN ty
+           Hp Hl Hkn Hg Hty Hch Ha Ht1 Hkl Hgl Htyl Hef Hinc0 Hall Hat Hfeed Hinc Hk.
+    destruct (prefix_ready T HT _ L prev k Hp) as (st & S1 & R1 & L1 & _).
+    assert (Htw : twf d = true) by (eapply gci_twf; eauto).
+    assert (Htwl : twf dl = true) by (eapply gci_twf; eauto).
+    destruct (after_name st L (t_val tn) d R1 L1 Hg ltac:(congruence)) as (st1 & P1 & C1 & K1 & Ld1 & E1).
+    assert (Hha : has_arguments d = true) by (unfold has_arguments; rewrite Ha; reflexivity).
+    rewrite Hty, Hch, Hha in E1. cbn in E1.
+    destruct (cna_t1_new L d (at_in (p_stack st)) a Htw Ha Ht1) as (N1 & EC & _).
+    pose proof (push_test T L st1 _ _ N1 a (t_val tl) dl K1 C1 ltac:(rewrite E1; reflexivity) Ld1 EC Hgl Htyl) as P2.
+    set (stL := with_stack (new_frame dl (at_of a) :: N1 :: p_stack st) (with_expected (d_expected_first dl) st1)) in *.
+    assert (EsL : p_stack stL = new_frame dl (at_of a) :: N1 :: p_stack st) by reflexivity.
+    rewrite (cc_incomplete stL _ _ false EsL Hinc0) in P2.
+    assert (HciL : cur_is stL (new_frame dl (at_of a)) (N1 :: p_stack st)).
+    { constructor; [exact EsL|unfold stL; pcbn; exact C1|unfold stL; pcbn; exact Hef|apply fi_new_frame; exact Htwl]. }
+    assert (LdL : p_loaded stL = L) by (unfold stL; pcbn; exact Ld1).
+    (* the arguments before the offending one *)
+    assert (Hmid : exists st2, steps T stL (flat_map arg_toks args0) = Some st2 /\ cur_is st2 fN (N1 :: p_stack st) /\ p_loaded st2 = L).
+    { destruct args0 as [|a0 args'].
+      - cbn in Hfeed. inversion Hfeed; subst fN. exists stL. cbn [flat_map steps]. auto.
+      - rewrite <- LdL in Hfeed.
+        destruct (run_args_gen T (a0 :: args') stL _ _ fN HciL Hall ltac:(discriminate) Hfeed)
+          as (stX & ts & PX & SX & CX & EX & VX & FX & _).
+        rewrite (cc_incomplete stX fN _ ts SX Hinc) in PX. cbn [ostep] in PX.
+        exists stX. split; [exact PX|]. split; [constructor; assumption|].
+        destruct VX as (_ & V2 & _). congruence. }
+    destruct Hmid as (st2 & S2 & Hci2 & Ld2).
+    pose proof (scalar_refused T st2 fN _ t ty Hci2 Hk) as X. rewrite Ld2 in X.
+    assert (Etn : strip_pos tn = mk TIdentifier (t_val tn)) by (destruct tn; cbn in *; unfold strip_pos, mk; cbn; congruence).
+    assert (Etl : strip_pos tl = mk TIdentifier (t_val tl)) by (destruct tl; cbn in *; unfold strip_pos, mk; cbn; congruence).
+    assert (Hl' : fst (lex text) = (pre ++ tn :: tl :: a0toks) ++ t :: rest).
+    { rewrite Hl. repeat (rewrite <- app_assoc; cbn [app]). reflexivity. }
+    assert (S3 : steps T p_init (map strip_pos (pre ++ tn :: tl :: a0toks)) = Some st2).
+    { rewrite map_app, steps_app, S1. cbn [map steps]. rewrite Etn, P1, Etl, P2, Hat. exact S2. }
+    destruct (check_next_arg fN ty (VStr (t_val t)) true true L); try exact I;
+      apply (reject_after_prefix T text (pre ++ tn :: tl :: a0toks) t rest st2 _ Hl' S3 X).
   Qed.
 End Texts.
 
